@@ -5,30 +5,46 @@ Import ListNotations.
 Open Scope Z_scope.
 
 (* ------------------------------------------------------------------ the directory *)
-(* an answering replica gives the directory's verdict, whatever diagnostic comes with a refusal *)
+(* an answering replica gives the directory's verdict under the FIRST pattern, whatever diagnostic
+   comes with a refusal and however many more patterns are configured; a replica that does not
+   answer does not answer under any pattern *)
+Lemma bind_at_first s sv u pw : bind_at s sv 0 u pw = bind s sv u pw.
+Proof. reflexivity. Qed.
+
 Lemma verdict_up s u pw : verdict interp_code (bind s SUp u pw) = Some (dir_accepts s u pw).
-Proof. unfold bind. destruct (dir_accepts s u pw); reflexivity. Qed.
+Proof. unfold bind, bind_at. fold (dir_accepts s u pw). destruct (dir_accepts s u pw); reflexivity. Qed.
+
+Lemma try_patterns_up s ps u pw : try_patterns interp_code s SUp (0%nat :: ps) u pw = Some (dir_accepts s u pw).
+Proof. cbn [try_patterns]. rewrite bind_at_first, verdict_up. reflexivity. Qed.
+
+Lemma try_patterns_silent s sv ps u pw : sv <> SUp -> try_patterns interp_code s sv ps u pw = None.
+Proof. intro H. induction ps as [|p r IH]; [reflexivity|]. destruct sv; [congruence| |]; simpl; exact IH. Qed.
+
+Lemma patterns_cons s : patterns s = 0%nat :: seq 1 (extra_patterns s).
+Proof. reflexivity. Qed.
 
 Lemma first_answer_some s svs u pw v :
   first_answer s svs u pw = Some v -> In SUp svs /\ v = dir_accepts s u pw.
 Proof.
-  unfold first_answer. induction svs as [|sv r IH]; simpl; [discriminate|].
+  unfold first_answer. induction svs as [|sv r IH]; cbn [first_answer_gen]; [discriminate|].
   destruct sv.
-  - rewrite verdict_up. intro H. inversion H. split; [left; reflexivity|reflexivity].
-  - simpl. intro H. destruct (IH H) as [A B]. split; [right; exact A|exact B].
-  - simpl. intro H. destruct (IH H) as [A B]. split; [right; exact A|exact B].
+  - rewrite patterns_cons, try_patterns_up. intro H. inversion H. split; [left; reflexivity|reflexivity].
+  - rewrite try_patterns_silent by discriminate. intro H. destruct (IH H) as [A B]. split; [right; exact A|exact B].
+  - rewrite try_patterns_silent by discriminate. intro H. destruct (IH H) as [A B]. split; [right; exact A|exact B].
 Qed.
 
 Lemma first_answer_none s svs u pw : first_answer s svs u pw = None -> ~ In SUp svs.
 Proof.
-  unfold first_answer. induction svs as [|sv r IH]; simpl; [tauto|].
-  destruct sv; [rewrite verdict_up; discriminate| |]; simpl; intros H [C|C]; try discriminate; exact (IH H C).
+  unfold first_answer. induction svs as [|sv r IH]; cbn [first_answer_gen]; [simpl; tauto|].
+  destruct sv; [rewrite patterns_cons, try_patterns_up; discriminate| |];
+    rewrite try_patterns_silent by discriminate; intros H [C|C]; try discriminate; exact (IH H C).
 Qed.
 
 Lemma first_answer_in s svs u pw : In SUp svs -> first_answer s svs u pw = Some (dir_accepts s u pw).
 Proof.
-  unfold first_answer. induction svs as [|sv r IH]; simpl; [tauto|].
-  destruct sv; [rewrite verdict_up; reflexivity| |]; simpl; intros [C|C]; try discriminate; exact (IH C).
+  unfold first_answer. induction svs as [|sv r IH]; cbn [first_answer_gen]; [simpl; tauto|].
+  destruct sv; [rewrite patterns_cons, try_patterns_up; reflexivity| |];
+    rewrite try_patterns_silent by discriminate; intros [C|C]; try discriminate; exact (IH C).
 Qed.
 
 (* ------------------------------------------------------------------ facts about the storage steps used *)
@@ -103,7 +119,7 @@ Qed.
 Lemma inv_step n ops o : inv n ops (prun n ops) -> inv n (ops ++ [o]) (fst (pstep (prun n ops) o)).
 Proof.
   set (s := prun n ops). intro I.
-  destruct o as [u pw|i sv|u pw|dt|m| |w slot r col|ua da|ds]; unfold pstep, pstep_gen.
+  destruct o as [u pw|i sv|u pw|dt|m| |w slot r col|ua da|ds|uh ph]; unfold pstep, pstep_gen.
   - (* Login *)
     unfold login_gen. fold (first_answer s (servers s) u pw).
     destruct (first_answer s (servers s) u pw) as [[|]|] eqn:FA; cbn [fst].
@@ -129,6 +145,7 @@ Proof.
       destruct (nth_error_snoc _ _ _ _ H) as [H1|[_ ->]]; [|discriminate G].
       destruct (I id j H1 G) as [A [B C]]. repeat split; [apply confirmed_snoc; exact A|exact B|exact C].
     + apply (inv_keep n ops _ s _ I); [reflexivity|]. cbn [st with_st]. rewrite now_put. lia.
+  - apply (inv_keep n ops _ s _ I); [reflexivity|cbn [fst st]; lia].
   - apply (inv_keep n ops _ s _ I); [reflexivity|cbn [fst st]; lia].
   - apply (inv_keep n ops _ s _ I); [reflexivity|cbn [fst st]; lia].
 Qed.
@@ -286,7 +303,7 @@ Lemma interp_code_any_diag c d :
 Proof. reflexivity. Qed.
 
 Lemma bind_refused_rejects s u pw c d : bind s SUp u pw = RRefused c d -> c = invalid_credentials /\ dir_accepts s u pw = false.
-Proof. unfold bind. destruct (dir_accepts s u pw); [discriminate|]. intro H. inversion H. split; reflexivity. Qed.
+Proof. unfold bind, bind_at. fold (dir_accepts s u pw). destruct (dir_accepts s u pw); [discriminate|]. intro H. inversion H. split; reflexivity. Qed.
 
 (* a replica answers the bind with invalidCredentials and ANY diagnostic (bad password, no such
    user, account disabled / locked out / expired, password expired, no text at all): the login
@@ -305,9 +322,10 @@ Proof.
 Qed.
 
 (* an account out of order is refused with result code 49 and the diagnostic of its state *)
-Lemma acct_refused s u pw d : aget N.eqb u (acct s) = Some d -> bind s SUp u pw = RRefused invalid_credentials d.
+Lemma acct_refused s u pw d : aget N.eqb u (acct s) = Some d ->
+  bind s SUp u pw = RRefused invalid_credentials (if Nat.eqb (home s u) 0 then d else style s).
 Proof.
-  intro H. unfold bind, dir_accepts, refusal_diag. rewrite H. rewrite andb_false_r. reflexivity.
+  intro H. unfold bind, bind_at, entry_accepts, refusal_diag. rewrite H. rewrite andb_false_r. reflexivity.
 Qed.
 
 (* a reading of the diagnostic under which only "bad password" / "no such user" count as the
@@ -326,3 +344,55 @@ Lemma diag_sensitive_refuted :
   snd (pstep (prun 1 ops) (Login 1 7)) = Some false /\
   aget skey_eqb (1%N, pw_type) (signed (cache (st (fst (pstep (prun 1 ops) (Login 1 7)))))) = None.
 Proof. vm_compute. repeat split; try reflexivity. left. reflexivity. Qed.
+
+(* ------------------------------------------------------------------ several bind patterns *)
+Definition with_extra (s : pstate) (e : nat) : pstate :=
+  mk_pstate (st s) (dir s) (servers s) (jwss s) (acct s) (style s) e (homes s).
+
+(* however many bind patterns are configured beyond the first, the answer is that of the first
+   pattern on the first replica that answers: further patterns are never consulted for a
+   replica that answers, and a replica that does not answer does not answer any of them *)
+Lemma first_pattern_decides s e svs u pw :
+  first_answer (with_extra s e) svs u pw = first_answer s svs u pw.
+Proof.
+  unfold first_answer. induction svs as [|sv r IH]; [reflexivity|]. cbn [first_answer_gen].
+  destruct sv.
+  - rewrite !patterns_cons, !try_patterns_up. reflexivity.
+  - rewrite !try_patterns_silent by discriminate. exact IH.
+  - rewrite !try_patterns_silent by discriminate. exact IH.
+Qed.
+
+Lemma login_patterns_irrelevant s e u pw :
+  snd (login (with_extra s e) u pw) = snd (login s u pw) /\
+  st (fst (login (with_extra s e) u pw)) = st (fst (login s u pw)) /\
+  jwss (fst (login (with_extra s e) u pw)) = jwss (fst (login s u pw)).
+Proof.
+  unfold login, login_gen. fold (first_answer (with_extra s e) (servers (with_extra s e)) u pw).
+  fold (first_answer s (servers s) u pw). cbn [servers with_extra]. rewrite first_pattern_decides.
+  change (get_pw true (with_extra s e) u) with (get_pw true s u).
+  destruct (first_answer s (servers s) u pw) as [[|]|].
+  - unfold refresh. cbn [st with_extra jwss]. destruct (writable (st s)); repeat split; reflexivity.
+  - destruct (get_pw true s u) as [| |j]; try (repeat split; reflexivity).
+    destruct (N.eqb (j_pw j) pw); repeat split; reflexivity.
+  - repeat split; reflexivity.
+Qed.
+
+(* a user whose entry lives under a LATER pattern cannot log in while a replica answers (the first
+   pattern's invalidCredentials is final) - a false reject, outside the statement, and the reason
+   why keymasterd's configuration passes one pattern *)
+Lemma later_pattern_user_refused s u pw : In SUp (servers s) -> home s u <> 0%nat -> snd (login s u pw) = false.
+Proof.
+  intros Hup Hh. rewrite (verdict_final s u pw Hup). unfold dir_accepts.
+  destruct (home s u); [congruence|]. apply andb_false_r.
+Qed.
+
+(* with a second pattern configured the diagnostic-sensitive reading is MASKED: the attempt under
+   the second pattern is answered "no such entry" (code 49, the style's bad-password sub status),
+   which that reading does take for the directory's verdict *)
+Definition prun_ad2 (n e : nat) (ops : list pop) : pstate :=
+  fold_left (fun s o => fst (pstep_ad s o)) ops (pinit2 n e).
+Lemma ad_masked_by_second_pattern :
+  let ops := removelast ad_disabled_history in
+  snd (pstep_ad (prun_ad2 1 0 ops) (Login 1 7)) = Some true /\
+  snd (pstep_ad (prun_ad2 1 1 ops) (Login 1 7)) = Some false.
+Proof. vm_compute. split; reflexivity. Qed.
